@@ -778,8 +778,11 @@ def check_C05(ctx):
     ctx.tie("T-run-noopt:stack-grammars", raw_ast, ["v", "end", "stk"])
     threeway(ctx, raw_ast, want_tokens=False, want_stack=True, skip_fws=True)
     raw = suites.suite_raw(ctx.tier, ctx.seed)
-    ctx.tie("T-raw:restore-points", raw, ["v", "end", "stk"], lambda c: c[0] in ("rep_k", "stackops_n", "stackops_a"))
-    raw_oracle(ctx, raw, lambda g, r: g in ("rep_k", "stackops_n", "stackops_a"), "restore point")
+    # rep_stackops: `pp_*` = POP as the element of a bounded repetition (a failing POP has already removed its entry: the iteration
+    # must give it back), `dr_*` / `pk_*` / `du_*` = DROP / PEEK elements
+    rawg = ("rep_k", "rep_stackops", "stackops_n", "stackops_a")
+    ctx.tie("T-raw:restore-points", raw, ["v", "end", "stk"], lambda c: c[0] in rawg and c[2] in ("parse_partial", "check_partial", "parse", "check"))
+    raw_oracle(ctx, raw, lambda g, r: g in rawg, "restore point")
 
 
 # ---------------------------------------------------------------------------------------------
